@@ -102,9 +102,9 @@ def _parse_json_exact(text):
     return json.loads(text, parse_float=Decimal, parse_int=int)
 
 
-def decode_line(line):
+def decode_line(line, strip_cr=True):
     """line: bytes without the terminating \\n. Returns a record dict or None."""
-    if line.endswith(b"\r"):
+    if strip_cr and line.endswith(b"\r"):
         line = line[:-1]
     try:
         text = line.decode("utf-8")
@@ -143,11 +143,17 @@ def decode_line(line):
             "raw_metadata": raw}
 
 
-def decode_bucket(data):
-    """All valid records of a bucket file, in file order."""
+def decode_bucket(data, cr="always"):
+    """All valid records of a bucket file, in file order. cr: how a trailing CR of a line is treated —
+    "always" stripped, "never", or "crlf" (stripped only when a newline follows, the behaviour of the
+    usual line readers). The format does not say; callers that compare with the library accept any of the
+    three as long as all entry points agree."""
     out = []
-    for line in data.split(b"\n"):
-        r = decode_line(line)
+    lines = data.split(b"\n")
+    for i, line in enumerate(lines):
+        last = i == len(lines) - 1
+        strip = cr == "always" or (cr == "crlf" and not last)
+        r = decode_line(line, strip_cr=strip)
         if r is not None:
             out.append(r)
     return out
